@@ -5,6 +5,7 @@ mod filetrace;
 mod rng;
 mod fixedwindow;
 mod fsutil;
+mod jsonline;
 mod levelgate;
 mod pattern;
 mod literals;
@@ -25,6 +26,7 @@ fn main() {
         "routing" => routing::main(rest),
         "cfgbuild" => cfgbuild::main(rest),
         "fanout" => fanout::main(rest),
+        "jsonline" => jsonline::main(rest),
         "pattern" => pattern::main(rest),
         "width" => pattern::main_width(rest),
         "literals" => literals::main(rest),
